@@ -567,7 +567,7 @@ var c14LowOrder25519 = []string{
 func runC14(c *vf.Ctx) {
 	// one model call costs ≈ 1.4 s (448·18 limb programs + a 460-multiplication inversion through the
 	// list-based interpreter); the spec ≈ 10 ms; goat + math/big reference ≈ 2 ms.
-	modelBudget := c.Budget(600, 3200) // model calls in total (16 workers)
+	modelBudget := c.Budget(480, 3200) // model calls in total (16 workers)
 	cheapBudget := c.Budget(24000, 200000)
 	if SearchMode() {
 		modelBudget, cheapBudget = modelBudget*2, cheapBudget*4
